@@ -83,6 +83,9 @@ type violation struct {
 	Reproduced bool   `json:"reproduced"`
 }
 
+// replayRoot is where replay files of violations are written.
+var replayRoot = "/verif/evidence/replay"
+
 func cmdCheck(args []string) int {
 	fs := flag.NewFlagSet("check", flag.ExitOnError)
 	tier := fs.String("tier", "quick", "quick|thorough")
@@ -90,6 +93,10 @@ func cmdCheck(args []string) int {
 	verbose := fs.Bool("v", false, "verbose")
 	noEvidence := fs.Bool("no-evidence", false, "do not write the evidence file")
 	fs.Parse(args)
+	if *noEvidence {
+		// runs against changed trees (seeded changes, refactorings) keep their replay files out of the evidence
+		replayRoot = "/verif/scratch/replay"
+	}
 	if fs.NArg() < 1 {
 		fmt.Fprintln(os.Stderr, "usage: loxvc check [-tier quick|thorough] Cxx")
 		return 2
@@ -476,7 +483,7 @@ func instanceTag(s string, i int) string {
 }
 
 func (r *checkRun) writeReplay(o *Obligation) string {
-	dir := filepath.Join("/verif/evidence/replay", r.id)
+	dir := filepath.Join(replayRoot, r.id)
 	os.MkdirAll(dir, 0o755)
 	p := filepath.Join(dir, sanitize(o.Name)+".json")
 	q := o.Query()
@@ -521,7 +528,7 @@ func (r *checkRun) writeReplayWith(o *Obligation, rec map[string]any, reproduced
 }
 
 func (r *checkRun) writeReplayText(name, detail string) string {
-	dir := filepath.Join("/verif/evidence/replay", r.id)
+	dir := filepath.Join(replayRoot, r.id)
 	os.MkdirAll(dir, 0o755)
 	p := filepath.Join(dir, sanitize(name)+".json")
 	rec := map[string]any{"property": r.id, "obligation": name, "detail": detail, "replayed": false}
